@@ -173,6 +173,8 @@ func (fe *FnExec) havocArg(st *State, a Val, depth int) {
 			fe.havocGhost(st, x.T)
 			if t, ok := fe.ifaceType[x.T]; ok {
 				fe.havocHeapObj(st, typeName(t), x.T, t)
+			} else if bv, ok := fe.boxed[x.T]; ok && depth < 2 {
+				fe.havocArg(st, bv, depth+1)
 			}
 		}
 	case FuncV:
@@ -338,6 +340,21 @@ func (fe *FnExec) applyContract(fr *frame, st *State, in ssa.Instruction, site s
 		g := post.evalBool(en.X)
 		fe.assume(tImp(st.pc, g), fmt.Sprintf("ensures %s of %s", en.Label, shortKey(con.Key)))
 	}
+	// a method that implements an interface contract also guarantees that contract to its static callers
+	for _, ik := range con.Implements {
+		ic := fe.eng.contracts[ik]
+		isig := fe.eng.ifaceSig(ik)
+		if ic == nil || isig == nil {
+			continue
+		}
+		ib := map[string]Val{}
+		fe.bindParams(ib, isig, full, true)
+		ictx := &EvalCtx{fe: fe, st: st, old: pre, binds: ib, pkg: fe.eng.pkgOfKey(ik), conFile: ic.File}
+		ictx.bindResults(isig, rvs)
+		for _, en := range ic.Ensures {
+			fe.assume(tImp(st.pc, ictx.evalBool(en.X)), fmt.Sprintf("ensures %s of %s (implemented by %s)", en.Label, shortKey(ik), shortKey(con.Key)))
+		}
+	}
 	if fr.con != nil {
 		if cs := fr.con.Calls[site]; cs != nil {
 			for _, a := range cs.Assumes {
@@ -372,7 +389,7 @@ func (fe *FnExec) applyContract(fr *frame, st *State, in ssa.Instruction, site s
 func (fe *FnExec) letFresh(con *Contract, l LetSpec, name string) Val {
 	// type: find the callee's function and the call instruction
 	if f := fe.eng.funcs[con.Key]; f != nil {
-		tmp := &frame{fn: f, ords: map[ssa.Instruction]string{}, callIdx: map[string]ssa.CallInstruction{}}
+		tmp := &frame{fn: f, ords: map[ssa.Instruction]string{}, callIdx: map[string]ssa.CallInstruction{}, pseudoSites: map[string]bool{}}
 		fe.assignOrdinals(tmp)
 		if ci, ok := tmp.callIdx[l.Call]; ok {
 			t := ci.(ssa.Value).Type()
@@ -496,7 +513,8 @@ func (fe *FnExec) lastCallRule(fr *frame, st *State, full []Val) {
 			last = fe.freshVal(fv.Fn.Signature.Results().At(0).Type(), "cb.result")
 		}
 		fe.cbInfo[fv.Fn] = &cbState{called: called, last: last}
-		// havoc the captured cells
+		// havoc the captured cells the closure may write
+		written := writtenFreeVars(fv.Fn)
 		after := map[string]Val{}
 		oldB := map[string]Val{}
 		for i, b := range fv.Bind {
@@ -505,6 +523,11 @@ func (fe *FnExec) lastCallRule(fr *frame, st *State, full []Val) {
 				continue
 			}
 			name := fv.Fn.FreeVars[i].Name()
+			if !written[fv.Fn.FreeVars[i]] {
+				after[name] = before[name]
+				oldB[name] = before[name]
+				continue
+			}
 			nv := fe.freshVal(p.Pointee, "cb."+name)
 			fe.store(st, p, nv)
 			after[name] = nv
@@ -537,4 +560,47 @@ func (fe *FnExec) lastCallRule(fr *frame, st *State, full []Val) {
 			fe.assume(tImp(tAnd(st.pc, called), ctx.evalBool(en.X)), "last call of the closure satisfies its ensures "+en.Label)
 		}
 	}
+}
+
+// writtenFreeVars: the captured variables a function literal (or a literal nested in it) may assign to.
+func writtenFreeVars(fn *ssa.Function) map[*ssa.FreeVar]bool {
+	out := map[*ssa.FreeVar]bool{}
+	root := func(v ssa.Value) *ssa.FreeVar {
+		for {
+			switch x := v.(type) {
+			case *ssa.FreeVar:
+				return x
+			case *ssa.FieldAddr:
+				v = x.X
+			case *ssa.IndexAddr:
+				v = x.X
+			default:
+				return nil
+			}
+		}
+	}
+	for _, b := range fn.Blocks {
+		for _, in := range b.Instrs {
+			switch x := in.(type) {
+			case *ssa.Store:
+				if fv := root(x.Addr); fv != nil {
+					out[fv] = true
+				}
+			case ssa.CallInstruction:
+				for _, a := range x.Common().Args {
+					if fv := root(a); fv != nil {
+						out[fv] = true // address handed to a callee
+					}
+				}
+			case *ssa.MakeClosure:
+				inner := writtenFreeVars(x.Fn.(*ssa.Function))
+				for i, bnd := range x.Bindings {
+					if fv := root(bnd); fv != nil && i < len(x.Fn.(*ssa.Function).FreeVars) && inner[x.Fn.(*ssa.Function).FreeVars[i]] {
+						out[fv] = true
+					}
+				}
+			}
+		}
+	}
+	return out
 }
